@@ -1373,6 +1373,13 @@ class SpaceManager(SharedSpaceOperations):
             if is_valid_name(funcname):
                 name = funcname
 
+        if not is_valid_name(name):
+            # auto-named: the name must be free in the sub spaces too
+            while True:
+                name = space.cellsnamer.get_next(space.namespace)
+                if self._can_add(space, name, CellsImpl):
+                    break
+
         if not self._can_add(space, name, CellsImpl):
             raise ValueError("Cannot create cells '%s'" % name)
 
